@@ -43,6 +43,9 @@ type c07Path struct {
 	casDelVer                     int
 	partsRead                     int
 	prefixChecked                 bool
+	prefixUnconditional           bool
+	nullReads                     int
+	guards                        [][]string // per precondition guard (→ ErrPreconditionFailed): the facts it tests, "kind:gen"
 	gen                           map[string]int // variable → generation
 	snap                          map[string]int // snapshot booleans (objectExists) → generation
 	partsVar                      map[string]int // variable holding part rows → generation of the row they belong to
@@ -138,29 +141,50 @@ func (p *c07Path) add(l *[]int, g int) {
 
 // scanPrecondition records what a condition that leads to ErrPreconditionFailed looks at.
 func (p *c07Path) scanPrecondition(e ast.Expr) {
+	var facts []string
+	fact := func(kind string, g int) {
+		if g != 0 {
+			facts = append(facts, fmt.Sprintf("%s:%d", kind, g))
+		}
+	}
 	ast.Inspect(e, func(n ast.Node) bool {
 		switch v := n.(type) {
 		case *ast.BinaryExpr:
 			if v.Op == token.NEQ || v.Op == token.EQL {
 				l, r := p.src(v.X), p.src(v.Y)
 				if strings.HasSuffix(l, ".ETag") && r == "*opts.IfMatchETag" {
-					p.add(&p.etagCompared, p.gen[strings.TrimSuffix(l, ".ETag")])
+					g := p.gen[strings.TrimSuffix(l, ".ETag")]
+					p.add(&p.etagCompared, g)
+					fact("etag", g)
 				}
 				if r == "nil" {
-					p.add(&p.existChecked, p.gen[l])
+					if g := p.gen[l]; g != 0 && g < 100 {
+						p.add(&p.existChecked, g)
+					}
+					fact("nil", p.gen[l])
 				}
 			}
 		case *ast.SelectorExpr:
 			if v.Sel.Name == "IsDeleteMarker" {
-				p.add(&p.existChecked, p.gen[p.src(v.X)])
+				if g := p.gen[p.src(v.X)]; g != 0 && g < 100 {
+					p.add(&p.existChecked, g)
+				}
+				fact("marker", p.gen[p.src(v.X)])
+			}
+			if v.Sel.Name == "IsLatest" {
+				fact("latest", p.gen[p.src(v.X)])
 			}
 		case *ast.Ident:
 			if g, ok := p.snap[v.Name]; ok {
 				p.add(&p.existChecked, g)
+				fact("snapshot", g)
 			}
 		}
 		return true
 	})
+	if len(facts) > 0 {
+		p.guards = append(p.guards, facts)
+	}
 }
 
 func c07ReturnsPreconditionFailed(b *ast.BlockStmt, x *ExtractCtx) bool {
@@ -213,7 +237,13 @@ func (p *c07Path) call(lhs []ast.Expr, call *ast.CallExpr, define bool) {
 					p.err = fmt.Errorf("%s/%s: cannot trace the guarded delete's version %q", p.fn, p.kind, ver)
 				}
 			}
-		case "FindNullObjectVersionByBucketNameAndKey", "FindObjectByBucketNameAndKeyAndUploadId", "FindObjectByBucketNameAndKeyAndVersionID",
+		case "FindNullObjectVersionByBucketNameAndKey":
+			// a read of the key's NULL version: generations 101, 102, …
+			p.nullReads++
+			if len(lhs) > 0 {
+				p.gen[p.src(lhs[0])] = 100 + p.nullReads
+			}
+		case "FindObjectByBucketNameAndKeyAndUploadId", "FindObjectByBucketNameAndKeyAndVersionID",
 			"FindLatestObjectByBucketNameAndKeyExcludingID", "SaveObject", "DeleteObjectById":
 		default:
 			p.err = fmt.Errorf("%s/%s: unknown object repository call %s", p.fn, p.kind, name)
@@ -323,6 +353,16 @@ func (p *c07Path) walk(stmts []ast.Stmt) {
 			// the append prefix check: `for i, existing := range existingParts { if obj.Parts[i].Id != existing.PartId { return … } }`
 			if g := p.partsVar[p.src(v.X)]; g != 0 && strings.Contains(p.src(v.Body), "obj.Parts[i].Id != "+p.src(v.Value)+".PartId") {
 				p.prefixChecked = true
+				// … and nothing else decides whether it applies: the loop body is that one `if`, its
+				// condition is exactly the comparison, its body returns an error
+				if len(v.Body.List) == 1 {
+					if is, ok := v.Body.List[0].(*ast.IfStmt); ok && is.Init == nil && is.Else == nil &&
+						p.src(is.Cond) == "obj.Parts[i].Id != "+p.src(v.Value)+".PartId" && len(is.Body.List) == 1 {
+						if r, ok := is.Body.List[0].(*ast.ReturnStmt); ok && len(r.Results) == 2 && p.src(r.Results[0]) == "nil" {
+							p.prefixUnconditional = true
+						}
+					}
+				}
 			}
 		}
 	}
@@ -388,6 +428,12 @@ structure CondPath where
   casDeleteVersionGen : Option Nat   -- generation whose version guards DELETE … WHERE id AND optimistic_lock_version
   partsReadGen : Option Nat          -- AppendObject: generation whose part rows are read for the prefix check
   prefixChecked : Bool               -- AppendObject: existing part rows must be a prefix of the new list
+  prefixCheckUnconditional : Bool    -- … and no further condition (e.g. on the request's options) enables that check
+  guards : List (List (String × Nat))
+    -- the precondition guards (conditions that answer PreconditionFailed) in execution order, each with the
+    -- facts it tests: ("etag", g) ETag of generation g compared; ("nil", g) row of generation g absent/present;
+    -- ("marker", g) its delete-marker flag; ("latest", g) its is_latest flag; ("snapshot", g) a boolean computed
+    -- EARLIER from generation g (objectExists). Generations ≥ 101 are reads of the key's null version.
   deriving DecidableEq, Repr
 `)
 	fmt.Fprintln(w, "def condPaths : List CondPath := [")
@@ -408,9 +454,18 @@ structure CondPath where
 			if p.reads == 0 {
 				return fmt.Errorf("%s/%s: no read of the latest row found", fn, kind)
 			}
-			lines = append(lines, fmt.Sprintf("  ⟨%s, %s, %d, %s, %s, %s, %s, %s, %s, %s, %v⟩", LeanStr(fn), LeanStr(kind), p.reads,
+			var gs []string
+			for _, facts := range p.guards {
+				var fs []string
+				for _, f := range facts {
+					kv := strings.SplitN(f, ":", 2)
+					fs = append(fs, fmt.Sprintf("(%s, %s)", LeanStr(kv[0]), kv[1]))
+				}
+				gs = append(gs, "["+strings.Join(fs, ", ")+"]")
+			}
+			lines = append(lines, fmt.Sprintf("  ⟨%s, %s, %d, %s, %s, %s, %s, %s, %s, %s, %v, %v,\n    [%s]⟩", LeanStr(fn), LeanStr(kind), p.reads,
 				c07IntList(p.etagCompared), c07IntList(p.existChecked), c07Opt(p.lockVer), c07Opt(p.lockEnt), c07Opt(p.lockIfRow),
-				c07Opt(p.casDelVer), c07Opt(p.partsRead), p.prefixChecked))
+				c07Opt(p.casDelVer), c07Opt(p.partsRead), p.prefixChecked, p.prefixUnconditional, strings.Join(gs, ", ")))
 		}
 	}
 	fmt.Fprintln(w, strings.Join(lines, ",\n"))
